@@ -137,10 +137,12 @@ func (d *UpGrid) Cases(tier string) []GridCase {
 		for _, v := range d.versions() {
 			for i, dvar := range dv {
 				for j, f := range flags {
-					// the full flag menu for the first data variant, the first two flags for the others
-					if i > 0 && j > 1 {
+					// the full product flags x data variants, except that legacy flags mean nothing from 0.17.0 on
+					// (nothing is stored for them): there only the first flag is kept
+					if v >= 17000 && j > 0 {
 						continue
 					}
+					_ = i
 					if c == "alphabet" && strings.HasPrefix(f, "notary=true") {
 						continue // switching an Alphabet contract with notary=true redistributes GAS through Netmap/Proxy: out of this grid
 					}
